@@ -116,7 +116,7 @@ func ruleBlobRemovalGuards(c *Ctx, rule string) {
 						}
 					}
 					// delete(deleteMap, layer.Digest) for Layers and delete(deleteMap, manifest.Config.Digest)
-					mp := paramObj(fn, "deleteMap")
+					mp := paramAt(fn, 0)
 					delLayers, delConfig := false, false
 					for _, d := range g.FindCalls("builtin.delete") {
 						dc := d.Node.(*ast.CallExpr)
@@ -492,7 +492,7 @@ func ruleManifestsComplete(c *Ctx, rule string) {
 		}
 		ok := false
 		for _, a := range g.AtomsAt(ex.Loc) {
-			if id, isID := ast.Unparen(a.Expr).(*ast.Ident); isID && id.Name == "continueOnError" && !a.Val {
+			if id, isID := ast.Unparen(a.Expr).(*ast.Ident); isID && info.Uses[id] == paramAt(f, 0) && !a.Val {
 				ok = true
 			}
 		}
